@@ -92,6 +92,19 @@ BEHAVIOUR_PRESERVING += [
  ('bp_constants_sorted_then_zipped_via_local', [('plonky2/src/plonk/circuit_builder.rs', '            .sorted_by_key(|(c, _t)| c.to_canonical_u64())\n            .zip(self.constant_generators.clone())', '            .sorted_by_key(|(c, _t)| c.to_canonical_u64())\n            .collect::<Vec<_>>()\n            .into_iter()\n            .zip(self.constant_generators.clone())')], ['C19'], None),
 ]
 
+# ---- refactoring variants: extract a helper / inline a helper around a table row
+BEHAVIOUR_PRESERVING += [
+ ('bp_extract_helper_around_pow_check', [('plonky2/src/fri/verifier.rs', '    fri_verify_proof_of_work(challenges.fri_pow_response, &params.config)?;\n\n    // Check that parameters are coherent.', '    check_grinding::<F, D>(challenges, params)?;\n\n    // Check that parameters are coherent.'),
+                                          ('plonky2/src/fri/verifier.rs', 'pub fn verify_fri_proof<', 'fn check_grinding<F: RichField + Extendable<D>, const D: usize>(\n    challenges: &FriChallenges<F, D>,\n    params: &FriParams,\n) -> Result<()> {\n    fri_verify_proof_of_work(challenges.fri_pow_response, &params.config)\n}\n\npub fn verify_fri_proof<')], ['C05', 'C03'], None),
+ ('bp_inline_pow_check', [('plonky2/src/fri/verifier.rs', '    fri_verify_proof_of_work(challenges.fri_pow_response, &params.config)?;\n\n    // Check that parameters are coherent.', '    ensure!(\n        challenges.fri_pow_response.to_canonical_u64().leading_zeros()\n            >= params.config.proof_of_work_bits + (64 - F::order().bits()) as u32,\n        "Invalid proof of work witness."\n    );\n\n    // Check that parameters are coherent.')], ['C05', 'C03'], None),
+]
+
+BEHAVIOUR_PRESERVING += [
+ ('bp_validator_split_into_helper', [('plonky2/src/plonk/validate_shape.rs', '    ensure!(constants.len() == common_data.num_constants);\n    ensure!(plonk_sigmas.len() == config.num_routed_wires);\n    ensure!(wires.len() == config.num_wires);\n', '    check_first_openings(constants, plonk_sigmas, wires, common_data.num_constants, config.num_routed_wires, config.num_wires)?;\n'),
+                                       ('plonky2/src/plonk/validate_shape.rs', 'fn validate_proof_shape<F, C, const D: usize>(', 'fn check_first_openings<T>(\n    constants: &[T],\n    plonk_sigmas: &[T],\n    wires: &[T],\n    num_constants: usize,\n    num_routed_wires: usize,\n    num_wires: usize,\n) -> anyhow::Result<()> {\n    ensure!(constants.len() == num_constants);\n    ensure!(plonk_sigmas.len() == num_routed_wires);\n    ensure!(wires.len() == num_wires);\n    Ok(())\n}\n\nfn validate_proof_shape<F, C, const D: usize>(')], ['C18', 'C03', 'C17'], None),
+ ('bp_circuit_final_poly_connect_in_helper', [('plonky2/src/fri/recursive_verifier.rs', '        self.connect_extension(eval, old_eval);\n    }\n', '        self.connect_final_eval(eval, old_eval);\n    }\n\n    fn connect_final_eval(&mut self, eval: ExtensionTarget<D>, old_eval: ExtensionTarget<D>) {\n        self.connect_extension(eval, old_eval);\n    }\n')], ['C06', 'C11'], None),
+]
+
 def run(name, subs, checks):
     args = [os.path.join(V, 'selftest', 'mutrun.py')]
     for f, o, n in subs:
